@@ -192,3 +192,179 @@ Lemma c16_example_sockets :
                 [FIp 0x020000000102 (V4 (ip4 10 0 0 2)) 7]; [] ]) /\
     sim_qlens st = [0].
 Proof. eexists. split; vm_compute; reflexivity. Qed.
+
+(* ---------- the socket-level simulation is a sequence of interface events ---------- *)
+
+Lemma nh_run_app : forall a i b,
+  nh_run i (a ++ b) =
+  match nh_run i a with
+  | Ok (i1, f1) => match nh_run i1 b with Ok (i2, f2) => Ok (i2, f1 ++ f2) | Err e => Err e | Panic => Panic end
+  | Err e => Err e
+  | Panic => Panic
+  end.
+Proof.
+  induction a as [|e r IH]; intros i b.
+  - cbn [app nh_run]. destruct (nh_run i b) as [[i2 f2]| |]; reflexivity.
+  - cbn [app nh_run]. destruct (nh_step i e) as [[i1 f1]| |]; simpl; try reflexivity.
+    rewrite IH. destruct (nh_run i1 r) as [[i2 f2]| |]; simpl; try reflexivity.
+    destruct (nh_run i2 b) as [[i3 f3]| |]; simpl; try reflexivity.
+    rewrite app_assoc. reflexivity.
+Qed.
+
+Lemma nh_run_app_ok : forall a b i i1 i2 f1 f2,
+  nh_run i a = Ok (i1, f1) -> nh_run i1 b = Ok (i2, f2) -> nh_run i (a ++ b) = Ok (i2, f1 ++ f2).
+Proof. intros. rewrite nh_run_app, H, H0. reflexivity. Qed.
+
+Lemma stamp_app : forall now a b, stamp now (a ++ b) = stamp now a ++ stamp now b.
+Proof. intros; unfold stamp; apply map_app. Qed.
+
+Lemma sim_ingress_refines : forall rx i now i' fr,
+  sim_ingress i rx now = Ok (i', fr) ->
+  nh_run i (map (EvRx now) rx) = Ok (i', stamp now fr).
+Proof.
+  induction rx as [|f r IH]; intros i now i' fr H; cbn [sim_ingress map nh_run] in *.
+  - inversion H; subst; reflexivity.
+  - cbn [nh_step].
+    destruct (nh_process_ethernet i now f) as [[i1 f1]| |]; simpl in *; try discriminate.
+    destruct (sim_ingress i1 r now) as [[i2 f2]| |] eqn:R; simpl in *; try discriminate.
+    inversion H; subst. rewrite (IH _ _ _ _ R). simpl. unfold stamp. rewrite map_app. reflexivity.
+Qed.
+
+Lemma sock_egress_refines : forall i s now i' s' fr b,
+  sim_sock_egress i s now = Ok (i', s', fr, b) ->
+  exists evs, nh_run i evs = Ok (i', stamp now fr).
+Proof.
+  intros i s now i' s' fr b H. unfold sim_sock_egress in H.
+  destruct (meta_egress_permitted (sk_meta s) now (nh_has_neighbor i now)) as [permitted m1].
+  destruct permitted; cbn [negb] in H.
+  2:{ inversion H; subst. exists []. reflexivity. }
+  destruct (sk_q s) as [|[dst tag] rest].
+  { inversion H; subst. exists []. reflexivity. }
+  match type of H with (if ?c then _ else _) = _ => destruct c end.
+  { inversion H; subst. exists []. reflexivity. }
+  destruct (nh_dispatch_ip i dst tag now) as [[[i1 f1] r1]| |] eqn:P; simpl in H; try discriminate.
+  exists [EvDispatch now dst tag]. cbn [nh_run nh_step]. rewrite P. simpl.
+  destruct r1; inversion H; subst; rewrite app_nil_r; reflexivity.
+Qed.
+
+Lemma socket_egress_refines : forall ss i now i' ss' fr b,
+  sim_socket_egress i ss now = Ok (i', ss', fr, b) ->
+  exists evs, nh_run i evs = Ok (i', stamp now fr).
+Proof.
+  induction ss as [|s r IH]; intros i now i' ss' fr b H; cbn [sim_socket_egress] in H.
+  - inversion H; subst. exists []. reflexivity.
+  - destruct (sim_sock_egress i s now) as [[[[i1 s1] f1] b1]| |] eqn:S; simpl in H; try discriminate.
+    destruct (sim_socket_egress i1 r now) as [[[[i2 r2] f2] b2]| |] eqn:R; simpl in H; try discriminate.
+    inversion H; subst.
+    destruct (sock_egress_refines _ _ _ _ _ _ _ S) as [e1 E1].
+    destruct (IH _ _ _ _ _ _ R) as [e2 E2].
+    exists (e1 ++ e2). rewrite stamp_app. eapply nh_run_app_ok; eauto.
+Qed.
+
+Lemma egress_loop_refines : forall fuel i ss now i' ss' fr,
+  sim_egress_loop fuel i ss now = Ok (i', ss', fr) ->
+  exists evs, nh_run i evs = Ok (i', stamp now fr).
+Proof.
+  induction fuel as [|n IH]; intros i ss now i' ss' fr H; cbn [sim_egress_loop] in H.
+  - inversion H; subst. exists []. reflexivity.
+  - destruct (sim_socket_egress i ss now) as [[[[i1 ss1] f1] again]| |] eqn:S; simpl in H; try discriminate.
+    destruct (socket_egress_refines _ _ _ _ _ _ _ S) as [e1 E1].
+    destruct again.
+    + destruct (sim_egress_loop n i1 ss1 now) as [[[i2 ss2] f2]| |] eqn:L; simpl in H; try discriminate.
+      inversion H; subst. destruct (IH _ _ _ _ _ _ L) as [e2 E2].
+      exists (e1 ++ e2). rewrite stamp_app. eapply nh_run_app_ok; eauto.
+    + inversion H; subst. exists e1. exact E1.
+Qed.
+
+Lemma sim_poll_refines : forall st now st' fr,
+  sim_poll st now = Ok (st', fr) ->
+  exists evs, nh_run (sim_if st) evs = Ok (sim_if st', stamp now fr).
+Proof.
+  intros st now st' fr H. unfold sim_poll in H.
+  remember (S (sim_queued (sim_socks st))) as fuel.
+  destruct (sim_ingress (sim_if st) (sim_rx st) now) as [[i1 f1]| |] eqn:I; simpl in H; try discriminate.
+  destruct (sim_egress_loop fuel i1 (sim_socks st) now) as [[[i2 ss2] f2]| |] eqn:L;
+    simpl in H; try discriminate.
+  inversion H; subst. cbn [sim_if].
+  destruct (egress_loop_refines _ _ _ _ _ _ _ L) as [e2 E2].
+  exists (map (EvRx now) (sim_rx st) ++ e2). rewrite stamp_app.
+  eapply nh_run_app_ok; [apply sim_ingress_refines; exact I | exact E2].
+Qed.
+
+(* frames of one simulation step with their time (only polls transmit) *)
+Definition sim_step_t (st : sim) (e : sim_ev) : outcome (sim * list (Z * frame)) :=
+  do '(st', fr, _) <- sim_step st e;
+  Ok (st', match e with SPoll now => stamp now fr | _ => [] end).
+
+Fixpoint sim_trace (st : sim) (evs : list sim_ev) : outcome (sim * list (Z * frame)) :=
+  match evs with
+  | [] => Ok (st, [])
+  | e :: r =>
+      do '(st1, f1) <- sim_step_t st e;
+      do '(st2, f2) <- sim_trace st1 r;
+      Ok (st2, f1 ++ f2)
+  end.
+
+Lemma sim_step_refines : forall st e st' tfr,
+  sim_step_t st e = Ok (st', tfr) ->
+  exists evs, nh_run (sim_if st) evs = Ok (sim_if st', tfr).
+Proof.
+  intros st e st' tfr H. unfold sim_step_t in H.
+  destruct (sim_step st e) as [[[st1 fr] r]| |] eqn:S; simpl in H; try discriminate.
+  inversion H; subst; clear H.
+  destruct e; cbn [sim_step] in S.
+  - inversion S; subst. exists [EvAddrs l]. reflexivity.
+  - exists []. destruct (nth_error (sim_socks st) s) as [sk|]; [|inversion S; subst; reflexivity].
+    destruct ((sk_kind sk <? 2) && ip_is_unspecified dst); [inversion S; subst; reflexivity|].
+    destruct (Z.of_nat (length (sk_q sk)) <? sim_qcap st); inversion S; subst; reflexivity.
+  - inversion S; subst. exists []. reflexivity.
+  - destruct (route_add_default_ipv4_route (sim_rcap st) (if_routes (sim_if st)) gw) as [l ok].
+    inversion S; subst. exists [EvRoutes l]. reflexivity.
+  - destruct (route_add_default_ipv6_route (sim_rcap st) (if_routes (sim_if st)) gw) as [l ok].
+    inversion S; subst. exists [EvRoutes l]. reflexivity.
+  - inversion S; subst. eexists [EvRoutes _]. reflexivity.
+  - inversion S; subst. eexists [EvRoutes _]. reflexivity.
+  - destruct (route_push (sim_rcap st) (if_routes (sim_if st)) r0) as [l ok].
+    inversion S; subst. exists [EvRoutes l]. reflexivity.
+  - inversion S; subst. eexists [EvRoutes _]. reflexivity.
+  - inversion S; subst. eexists [EvRoutes _]. reflexivity.
+  - destruct (sim_poll st now) as [[st2 f2]| |] eqn:P; simpl in S; try discriminate.
+    inversion S; subst. apply sim_poll_refines; exact P.
+Qed.
+
+(* every run of the simulated Interface (the model the correspondence stream validates) is a run of
+   interface events: all theorems about [nh_run] apply to it *)
+Lemma sim_trace_refines : forall evs st st' tfr,
+  sim_trace st evs = Ok (st', tfr) ->
+  exists nevs, nh_run (sim_if st) nevs = Ok (sim_if st', tfr).
+Proof.
+  induction evs as [|e r IH]; intros st st' tfr H; cbn [sim_trace] in H.
+  - inversion H; subst. exists []. reflexivity.
+  - destruct (sim_step_t st e) as [[st1 f1]| |] eqn:S; simpl in H; try discriminate.
+    destruct (sim_trace st1 r) as [[st2 f2]| |] eqn:R; simpl in H; try discriminate.
+    inversion H; subst.
+    destruct (sim_step_refines _ _ _ _ S) as [e1 E1]. destruct (IH _ _ _ R) as [e2 E2].
+    exists (e1 ++ e2). eapply nh_run_app_ok; eauto.
+Qed.
+
+Lemma sim_discovery_rate : forall ether hw cap rcap qcap kinds evs st tfr a t1 b t2 c,
+  sim_trace (sim_init ether hw cap rcap qcap kinds) evs = Ok (st, tfr) ->
+  req_times tfr = a ++ t1 :: b ++ t2 :: c ->
+  t1 + 1000000 <= t2.
+Proof.
+  intros ether hw cap rcap qcap kinds evs st tfr a t1 b t2 c H E.
+  destruct (sim_trace_refines _ _ _ _ H) as [nevs R].
+  change (sim_if (sim_init ether hw cap rcap qcap kinds)) with (nh_init ether hw cap) in R.
+  exact (discovery_rate_run _ _ _ _ _ _ _ _ _ _ _ R E).
+Qed.
+
+Lemma sim_cache_bounded : forall ether hw cap rcap qcap kinds evs st tfr, 1 <= cap ->
+  sim_trace (sim_init ether hw cap rcap qcap kinds) evs = Ok (st, tfr) ->
+  Z.of_nat (length (c_storage (if_cache (sim_if st)))) <= cap /\
+  NoDup (map fst (c_storage (if_cache (sim_if st)))).
+Proof.
+  intros ether hw cap rcap qcap kinds evs st tfr Hcap H.
+  destruct (sim_trace_refines _ _ _ _ H) as [nevs R].
+  change (sim_if (sim_init ether hw cap rcap qcap kinds)) with (nh_init ether hw cap) in R.
+  exact (cache_bounded_run _ _ _ _ _ _ Hcap R).
+Qed.
